@@ -709,5 +709,19 @@ def record_verus(pid, unit, f, cname, txt, r, dst=None):
                         doc["note"] = "replayed on the real assembler: the source line of this production's form is lowered to a line whose token view differs from the interpreter's syntax for it"
         except Exception as e:       # a replay that cannot be made never hides the violation
             doc["replay_error"] = str(e)[:500]
+    elif unit == "assembler" and dst and any(k in cname for k in ("emitted_line", "memory_operand_text", "string_instruction_text")):
+        try:
+            import replay as replay_mod
+            import text_replay
+            tool = replay_mod.build_tool(dst)
+            rr = text_replay.replay_static(tool, replay_mod.ask, f["name"])
+            if rr is not None:
+                doc["recipe"] = {"kind": "asm", "source": rr["source"], "production": f["name"], "list": rr.get("list", "code")}
+                doc["replay"] = rr
+                doc["confirmed"] = bool(rr.get("confirmed"))
+                if doc["confirmed"]:
+                    doc["note"] = "replayed on the real assembler: the source line of this production's form is lowered to a line whose token view differs from the downstream syntax for it"
+        except Exception as e:
+            doc["replay_error"] = str(e)[:500]
     json.dump(doc, open(path, "w"), indent=1)
     return path, doc["confirmed"]
